@@ -203,6 +203,39 @@ def run_tuples(ctx):
     ctx.sample({"op": "tuple-chain", "a": sa, "b": sb})
 
 
+def run_wide(ctx):
+    """four and five indeterminates with exponents whose ranges multiply to more than 2**64: rows stay distinct through
+    alignment, addition and subtraction (seeded change C20-9: rows told apart by a mixed-radix rank in int64)"""
+    rows = [([16, 32767, 32767, 32767, 32767], [0, 32767, 32767, 32767, 32767]),
+            ([65536, 65535, 65535, 65535], [0, 65535, 65535, 65535]),
+            ([1, 0, 50000, 50000, 50000], [0, 1, 50000, 50000, 50000]),
+            ([4096, 4095, 4095, 4095, 4095], [0, 4095, 4095, 4095, 4095]),
+            ([2 ** 20, 2 ** 20 - 1, 2 ** 20 - 1, 3], [0, 2 ** 20 - 1, 2 ** 20 - 1, 3])]
+    for ea, eb in rows:
+        names = list(range(len(ea)))
+        sa = {"names": names, "shape": [], "dtype": "int64", "kind": "int", "terms": [[ea, [3]]]}
+        sb = {"names": names, "shape": [], "dtype": "int64", "kind": "int", "terms": [[eb, [5]], [[0] * len(eb), [1]]]}
+        case = {"kind": "wide", "a": sa, "b": sb}
+        da, db = den_of_struct(sa), den_of_struct(sb)
+        ctx.evaluations += 1
+        ctx.count("wide")
+        try:
+            with time_limit(30):
+                a, b = gen.materialize(sa), gen.materialize(sb)
+                al = numpoly.align_polynomials(a, b)
+                checks = [("align", den_of_struct(poly_to_struct(al[0])), da), ("align", den_of_struct(poly_to_struct(al[1])), db),
+                          ("add", den_of_struct(poly_to_struct(a + b)), oracle.dadd(da, db)),
+                          ("sub", den_of_struct(poly_to_struct(a - b)), oracle.dadd(da, {m: tuple(-c for c in cs) for m, cs in db.items()})),
+                          ("equal", bool(a == b), False)]
+        except (Exception, CaseTimeout) as err:  # noqa: BLE001
+            ctx.fail(case, f"exponents {ea} / {eb}: raised {type(err).__name__}: {str(err)[:100]}", ["wide", "raises"])
+            continue
+        for what, got, want in checks:
+            if got != want:
+                ctx.fail(case, f"{what} with exponent rows {ea} and {eb}: got {str(got)[:120]}, exact {str(want)[:120]}", ["wide", f"op:{what}"])
+                break
+
+
 def run_unrepresentable(ctx):
     """products / constructions reaching beyond the representable range must raise, never store another monomial"""
     for a, b in ((1114052, 1), (1114000, 100), (600000, 600000)):
@@ -319,6 +352,7 @@ def run(ctx):
     run_text(ctx)
     run_pairs(ctx)
     run_tuples(ctx)
+    run_wide(ctx)
     run_unrepresentable(ctx)
     run_codec(ctx)
     ctx.exhaustive = True
@@ -338,6 +372,9 @@ def replay(ctx, case):
         run_text(ctx)
         hits = [f["what"] for f in ctx.failures[n:] if f["case"].get("exponent") == case["exponent"]]
         return hits[0] if hits else None
+    if case["kind"] == "wide":
+        run_wide(ctx)
+        return ctx.failures[n]["what"] if len(ctx.failures) > n else None
     if case["kind"] == "narrow":
         run_narrow(ctx)
         hits = [f["what"] for f in ctx.failures[n:] if f["case"]["dtype"] == case["dtype"]]
